@@ -202,3 +202,19 @@ func hrrSV(tr tls.VerifServerTrace, s *tls.VerifServerScript) uint16 {
 	}
 	return tls.VersionTLS13
 }
+
+// TailOf classifies ServerHello.random[24:32]: 1 = DOWNGRD\x01, 2 = DOWNGRD\x00, 0 = anything else.
+func TailOf(random []byte) int { return tailOf(random) }
+
+// Flight12FromSeen: the flight term of a TLS <= 1.2 handshake described by the ServerHello the client
+// actually received (works for abbreviated handshakes, which do not pass the scripted server's choke point).
+// skxCurve = 0 when no ServerKeyExchange was sent.
+func Flight12FromSeen(r *Result, alpn string, skxCurve uint16) string {
+	skx := "None"
+	if skxCurve != 0 {
+		skx = fmt.Sprintf("(Some %d)", skxCurve)
+	}
+	sh := fmt.Sprintf("(mkHello %d 0 %d %s %d 0 0 0 false None %s)", r.ServerHelloVers, tailOf(r.ServerHelloRandom), vh.Bytes(r.ServerHelloSID),
+		r.ServerHelloSuite, vh.Str(alpn))
+	return fmt.Sprintf("(mkFlight None %s [] None %s true)", sh, skx)
+}
